@@ -2,7 +2,7 @@
    Only ExtrOcamlBasic is used (bool, option, unit, list, prod, sumbool, sumor mapped to OCaml's);
    no Extract Constant / Extract Inductive directive of our own. N, positive, nat, Z and string
    stay Coq datatypes. *)
-From HC Require Import Base NMap Codec Crypto FlatTree Storage Bitfield Oplog Merkle Core.
+From HC Require Import Base NMap Codec Crypto FlatTree Storage Bitfield Oplog Merkle Core PagedMem.
 Require Extraction.
 Require Import ExtrOcamlBasic.
 Extraction Language OCaml.
@@ -26,4 +26,6 @@ Extraction "hcmodel.ml"
   core_missing_nodes core_missing_nodes_tree core_make_read_only core_info core_has
   (* crypto layouts (reference values for C05) *)
   leaf_hash parent_hash tree_hash signable block_node parent_node
-  mkWorld mkCrypto.
+  mkWorld mkCrypto
+  (* the paged in-memory backend (model of random-access-memory 3.0.0) and the flat file, on operation lists (C14) *)
+  run_ram run_file.
